@@ -165,14 +165,22 @@ def check(run):
 
         if tag == 'tcp':
             run.clause('results keep configuration order and the one parsed port')
-        loops = [n for n in ar.all_nodes() if n['k'] == 'rangefor' and q.render(ar, n.get('range')) == 'result']
+        # the vector the configuration fills: the third argument of hostname_lookup, whatever it is called
+        res_args = [q.strip_casts(c['args'][2]) for c in hl if len(c.get('args') or []) >= 3]
+        res_txt = {q.render(ar, a_) for a_ in res_args}
+        loops = [n for n in ar.all_nodes() if n['k'] == 'rangefor' and q.render(ar, n.get('range')) in (res_txt or {'result'})]
+        for a_ in res_args:
+            fresh = is_node(a_) and a_['k'] == 'ref' and a_.get('dk') == 'local' and not q.render(ar, a_).startswith('m_')
+            run.check(fresh, 'R2r', 'addresses-fresh-per-lookup', '%s<%s>: hostname_lookup(..., %s, ...)' % (ar.norm, tag, q.render(ar, a_)[:20]), ar.loc(a_),
+                      'the address vector handed to the configuration is %s, which outlives the call: a configuration that appends to it, or leaves it untouched for an unknown name, returns the addresses of EARLIER lookups on this resolver paired with the new port' % q.render(ar, a_)[:30],
+                      'a local vector, empty at every lookup')
         okl = len(loops) == 1
         if okl:
             body_calls = [x for x in walk(loops[0]['body']) if x['k'] == 'call' and q.render(ar, x.get('obj')) == 'ips']
             okl = len(body_calls) == 1 and (body_calls[0].get('callee') or '').split('::')[-1] in ('emplace_back', 'push_back')
             txt = q.render(ar, body_calls[0]) if body_calls else ''
             okl = okl and 'ip' in txt and 'port' in txt
-        others = [x for x in ar.all_nodes() if x['k'] == 'call' and q.render(ar, x.get('obj')) == 'ips' and (x.get('callee') or '').split('::')[-1] not in ('emplace_back', 'push_back')]
+        others = [x for x in ar.all_nodes() if x['k'] == 'call' and q.render(ar, x.get('obj')) == 'ips' and (x.get('callee') or '').split('::')[-1] not in ('emplace_back', 'push_back', 'reserve')]
         sorts = [c for c in ar.calls() if q.callee_name(c) in ('std::sort', 'std::reverse', 'std::stable_sort', 'std::shuffle', 'std::unique', 'std::rotate')]
         run.check(okl and not others and not sorts, 'R2k', 'results-order', '%s<%s>' % (ar.norm, tag), ar.loc(), 'the result list is not built by one forward pass appending (ip, port) for each configured address', 'single range-for over `result` with emplace_back(ip, port)')
         ports = [v for n in ar.all_nodes() if n['k'] == 'decl' for v in n['vars'] if (getattr(ar, 'alias', None) or {}).get(v.get('did'), v.get('name')) == 'port']
